@@ -104,6 +104,8 @@ class RTDCWriter:
                                     mode=("w" if mode == "reset" else "a"))
         #: unfortunate necessity, as `len(h5py.Group)` can be really slow
         self._group_sizes = {}
+        #: number of non-nan values stored in scalar datasets (for "mean")
+        self._valid_sizes = {}
 
     def __enter__(self):
         return self
@@ -840,15 +842,26 @@ class RTDCWriter:
                 else:
                     val = ufunc(dset)
                 dset.attrs[uname] = val
-            # store ufunc data for mean (weighted with size)
-            mean_a = dset.attrs.get("mean", None)
-            if mean_a is not None:
-                num_a = offset
-                mean_b = np.nanmean(data)
-                num_b = data.size
-                mean = (mean_a * num_a + mean_b * num_b) / (num_a + num_b)
+            # store ufunc data for mean (weighted with the number of
+            # valid, i.e. non-nan, values)
+            if offset == 0:
+                num_a = 0
+            elif dset.name in self._valid_sizes:
+                num_a = self._valid_sizes[dset.name]
             else:
+                num_a = np.sum(~np.isnan(dset[:offset]))
+            num_b = np.sum(~np.isnan(data))
+            self._valid_sizes[dset.name] = num_a + num_b
+            mean_a = dset.attrs.get("mean", None)
+            if mean_a is None:
                 mean = np.nanmean(dset)
+            elif num_a == 0:
+                mean = np.nanmean(data)
+            elif num_b == 0:
+                mean = mean_a
+            else:
+                mean_b = np.nanmean(data)
+                mean = (mean_a * num_a + mean_b * num_b) / (num_a + num_b)
             dset.attrs["mean"] = mean
         else:
             chunk_size = dset.chunks[0]
